@@ -1434,9 +1434,28 @@ impl HashColumn {
 					table.validate_plan(record.index, log)?;
 				} else {
 					if record.table.index_bits() < tables.index.id.index_bits() {
-						// Insertion into a previously dropped index.
-						log::warn!( target: "parity-db", "Index {} is too old. Current is {}", record.table, tables.index.id);
-						return Err(Error::Corruption("Unexpected log index id".to_string()))
+						// Insertion into an index older than the current one that is not on disk.
+						// Either the crash hit while this very record was being applied (the
+						// newer index file was created first, the older one never was), or the
+						// older index was dropped by a later record of the same log. In both
+						// cases re-create it as a reindex source: in the first case its content
+						// is exactly what the log holds and it still has to be reindexed, in the
+						// second the later DropTable record removes it again.
+						log::warn!( target: "parity-db", "Index {} is older than current {} and missing, re-creating", record.table, tables.index.id);
+						let mut reindex = RwLockUpgradableReadGuard::upgrade(reindex);
+						let table = IndexTable::create_new(self.path.as_path(), record.table);
+						let pos = reindex
+							.queue
+							.iter()
+							.position(|e| match e {
+								ReindexEntry::Index(t) => t.id.index_bits() > record.table.index_bits(),
+								ReindexEntry::RefCount(_) => false,
+							})
+							.unwrap_or(reindex.queue.len());
+						reindex.queue.insert(pos, ReindexEntry::Index(table));
+						std::mem::drop(reindex);
+						std::mem::drop(tables);
+						return self.validate_plan(LogAction::InsertIndex(record), log)
 					}
 					// Re-launch previously started reindex
 					// TODO: add explicit log records for reindexing events.
